@@ -225,8 +225,30 @@ def run(tier, seed):
                 for seq in itertools.product(tmpl.alphabet, repeat=length):
                     idx += 1
                     cases.append(make_case(tname, seq, imported, idx))
-    runner = core.Runner("c16", batch_size=60, prelude=BASE + generic_same + "\n")
-    runner.extra_files = {"other.capy": generic_other + "\n"}
+    # comptime arguments that are spelled as named constants: of the same file or of an imported file, directly or through
+    # aliases; the calling file defines unrelated constants of the same names as the imported ones (other values)
+    konst = ("KN3 : usize : 3;\nKNA3 : usize : KN3;\nKNAA3 : usize : KNA3;\nKEl :: i16;\nKElA :: KEl;\nKElAA :: KElA;\n")
+    decoys = ('konst :: #import("konst.capy");\nKN3 : usize : 5;\nKNA3 : usize : 6;\nKEl :: i64;\nKElA :: i64;\n'
+              "LN2 : usize : 2;\nLNA2 : usize : LN2;\nLEl :: u8;\nLElA :: LEl;\n")
+    named = []
+    spell_n = {"konst.KN3": 3, "konst.KNA3": 3, "konst.KNAA3": 3, "LN2": 2, "LNA2": 2, "KN3": 5, "KNA3": 6}
+    spell_t = {"konst.KEl": "i16", "konst.KElA": "i16", "konst.KElAA": "i16", "LEl": "u8", "LElA": "u8", "KEl": "i64", "KElA": "i64"}
+    for imported in (False, True):
+        pre = "other." if imported else ""
+        for sp, n in spell_n.items():
+            named.append(Case(f"named-arg/len/{'imported' if imported else 'same-file'}/{sp}", f"pr(i64.({pre}g_len({sp})));",
+                              f"{as_i64(m_len((n,)))} "))
+        for sp, t in spell_t.items():
+            for v in (70000, 200, -3):
+                named.append(Case(f"named-arg/cast/{'imported' if imported else 'same-file'}/{sp}/{v}", f"pr(i64.({pre}g_cast({sp}, {v})));",
+                                  f"{as_i64(m_cast((t, v)))} "))
+        for (sn, n), (st, t) in itertools.product(spell_n.items(), spell_t.items()):
+            tup = (n, t, 300, 1)
+            named.append(Case(f"named-arg/mixed/{'imported' if imported else 'same-file'}/{sn},{st}", f"pr(i64.({pre}g_mixed(300, {sn}, 1, {st})));",
+                              f"{as_i64(TEMPLATES['mixed'].model(tup))} "))
+    cases += named
+    runner = core.Runner("c16", batch_size=60, prelude=BASE + generic_same + "\n" + decoys)
+    runner.extra_files = {"other.capy": generic_other + "\n", "konst.capy": konst}
     mism = runner.run(cases)
     outcomes = {c.expected for c in cases}
     if len(cases) < 500 or len(outcomes) < 100:
